@@ -143,7 +143,7 @@ def build_world(cfg):
 
 def ctx_of(cfg):
     if cfg.get("dehb"):
-        return f"dehb/{len(cfg['rungs_first'])}rungs"
+        return f"dehb/{len(cfg['rungs_first'])}rungs/F{cfg.get('F', 0)}"
     return f"shb/{cfg['sys']}"
 
 
